@@ -579,9 +579,16 @@ fn pending_entries_from_events<'a>(
         Some(Ev::Scalar { value, style, .. }) if scalar_is_nullish(value.as_ref(), style) => {
             Ok(Vec::new())
         }
-        Some(Ev::Scalar { location, .. }) => Err(Error::MergeValueNotMapOrSeqOfMaps {
-            location: *location,
-        }),
+        Some(Ev::Scalar { location, .. }) => {
+            // Reached through an alias (`<<: *scalar`): report the merge entry as well as the
+            // anchored scalar, like errors inside merged mappings do.
+            let defined = *location;
+            Err(attach_alias_locations_if_missing(
+                Error::MergeValueNotMapOrSeqOfMaps { location: defined },
+                reference_location,
+                defined,
+            ))
+        }
         Some(Ev::MapStart { .. }) => collect_entries_from_map(&mut replay, reference_location),
         Some(Ev::SeqStart { .. }) => {
             let mut batches = Vec::new();
@@ -645,9 +652,16 @@ fn pending_entries_from_live_events<'a>(
             let _ = ev.next()?;
             Ok(Vec::new())
         }
-        Some(Ev::Scalar { location, .. }) => Err(Error::MergeValueNotMapOrSeqOfMaps {
-            location: *location,
-        }),
+        Some(Ev::Scalar { location, .. }) => {
+            // Reached through an alias (`<<: *scalar`): report the merge entry as well as the
+            // anchored scalar.
+            let defined = *location;
+            Err(attach_alias_locations_if_missing(
+                Error::MergeValueNotMapOrSeqOfMaps { location: defined },
+                merge_reference_location,
+                defined,
+            ))
+        }
         Some(Ev::MapStart { .. }) => {
             let mut node = capture_node(ev)?;
             pending_entries_from_events(
